@@ -28,7 +28,8 @@ def class_level_mutables(repo, paths=None):
             for st in cnode.body:
                 if isinstance(st, ast.Assign) and len(st.targets) == 1 and isinstance(st.targets[0], ast.Name):
                     v = st.value
-                    mutable = isinstance(v, (ast.List, ast.Dict, ast.Set, ast.ListComp, ast.DictComp)) or \
+                    mutable = isinstance(v, (ast.List, ast.Dict, ast.Set, ast.ListComp, ast.DictComp, ast.SetComp)) or \
+                        (isinstance(v, ast.Call) and (U.call_name(v) or '') in ('dict.fromkeys', 'dict', 'list', 'set', 'collections.defaultdict', 'defaultdict', 'collections.OrderedDict', 'OrderedDict', 'bytearray')) or \
                         (isinstance(v, ast.Call) and (U.call_name(v) or '').split('.')[0] in ('np', 'numpy') and (U.call_name(v) or '').split('.')[-1] in
                          ('zeros', 'ones', 'empty', 'array', 'full', 'eye', 'identity', 'arange', 'linspace', 'zeros_like', 'ones_like'))
                     if mutable and st.targets[0].id not in rebound:
